@@ -308,6 +308,61 @@ def front_end_nulls(ctx, R):
     if n8 < 4:
         raise AnalysisBroken("preprocessor: only %d deletes of macro objects found" % n8)
 
+    # ---- R9 -------------------------------------------------------------------------------------------------------------------------
+    n9 = 0
+    for f in mine:
+        for c in f.walk():
+            if is_call(c) and callee(c).split("::")[-1] in ("stoi", "stol", "stoll", "stoul", "stoull", "stof", "stod", "stold") and callee(c).startswith("std::"):
+                n9 += 1
+                guarded = any(a["k"] == "CXXTryStmt" for a in f.ancestors(c))
+                R.ob("C16-R9", guarded, f.q, "%s(...) inside try" % callee(c).split("::")[-1], f.site(c),
+                     "std::invalid_argument / std::out_of_range are caught" if guarded else
+                     "a std:: exception leaves the translator (not an occa::exception): a huge @tile size made std::stoi throw std::out_of_range -> abort")
+    if n9 < 2:
+        raise AnalysisBroken("front end: only %d std::sto* calls found" % n9)
+
+    # ---- R10 ------------------------------------------------------------------------------------------------------------------------
+    TC = "occa::lang::tokenContext_t::"
+    SAFE = {q for q in prog.by_q if q.startswith("occa::lang::token_t::safe")}
+    # helpers that test the token under the cursor safely (e.g. variableLoader_t::hasArray)
+    wrappers = set()
+    for f in mine:
+        body = f.d.get("body")
+        if body is not None and len([x for x in walk(body) if is_call(x)]) <= 6 and any(is_call(x) and callee(x) in SAFE for x in walk(body)):
+            wrappers.add(f.q)
+    GUARD = SAFE | wrappers | {TC + "size", TC + "getClosingPair", TC + "getClosingPairToken", TC + "getNextOperator"}
+    n10 = 0
+    for f in mine:
+        adv = [c for c in f.walk() if is_call(c) and callee(c) in (TC + "operator++", TC + "operator+=")]
+        if not adv:
+            continue
+        cfg = f.cfg
+        derefs = []
+        for n in f.walk():
+            if n["k"] == "MemberExpr" and n.get("arrow") and kids(n):
+                b = strip(kids(n)[0])
+                if is_call(b) and callee(b) == TC + "operator[]":
+                    derefs.append((n, b))
+        guards = [c for c in f.walk() if is_call(c) and callee(c) in GUARD]
+        nulltests = [n for n in f.walk() if n["k"] == "ImplicitCastExpr" and n.get("ck") == "PointerToBoolean" and is_call(strip(n)) and callee(strip(n)) == TC + "operator[]"]
+        gi = {g["i"] for g in guards} | {g["i"] for g in nulltests}
+        ai = {a["i"] for a in adv}
+        for a in adv:
+            # a size test made before the advance (no other advance in between) bounds what is left after it
+            pre = [g for g in guards if callee(g) == TC + "size" and cfg.before(g, a) and
+                   cfg.find_path(cfg.position(g), lambda bb, i, e, a=a: e == a["i"], lambda bb, i, e, a=a: isinstance(e, int) and e in ai and e != a["i"]) is not None and
+                   not any(cfg.before(g, a2) and cfg.before(a2, a) for a2 in adv if a2 is not a)]
+            for (n, b) in derefs:
+                n10 += 1
+                p = cfg.find_path(cfg.position(a), lambda bb, i, e, b=b: e == b["i"], lambda bb, i, e, a=a: isinstance(e, int) and (e in gi or (e in ai and e != a["i"])))
+                ok = p is None or bool(pre)
+                R.ob("C16-R10", ok, f.q, "advance@%s then %s" % (f.site(a).split(":")[-1], noid(render(n, False))[:40]), f.site(n),
+                     "a size / safe-type / NULL test lies between the advance and the dereference" if ok else
+                     "the cursor advances and the token under it is dereferenced unconditionally: when the advance reaches the end of the tokens, tokenContext[0] is NULL "
+                     "(a trailing `@`, `enum e { a, };` crashed this way)", path=None if ok else p)
+    if n10 < 20:
+        raise AnalysisBroken("front end: only %d advance/dereference pairs found" % n10)
+
     # ---- R5 -----------------------------------------------------------------------------------------------------------------
     okl = prog.fn("occa::lang::okl::pathHasValidOklLoopOrdering")
     limits = set()
@@ -361,6 +416,8 @@ def run(ctx):
     R.rule("C16-R4", "a NULL result that signals a reported error is tested (folded into the error state) before it is used", floor=8)
     R.rule("C16-R7", "a delete inside a counted loop selects its operand with a variable the loop changes", floor=10)
     R.rule("C16-R8", "a macro object is deleted only through the entry of the map that owns it, which is erased with it", floor=5)
+    R.rule("C16-R9", "std::sto* conversions of user-controlled text run inside a try block (they throw std:: exceptions)", floor=2)
+    R.rule("C16-R10", "after the token cursor advances, the token under it is dereferenced only behind a size / safe-type test (the advance may reach the end)", floor=20)
     R.rule("C16-R6", "a parser function that pushes a statement context pops it on every path to a normal exit", floor=8)
     R.rule("C16-R5", "the three-entry dimension arrays are indexed by an OKL loop index that the validator bounds by 3", floor=4)
 
